@@ -18,6 +18,8 @@
 
 #include <usual/mempool.h>
 
+#include <limits.h>
+
 /*
  * Allows allocation of several variable-sized objects,
  * freeing them all together.
@@ -34,19 +36,26 @@ struct MemPool {
 	unsigned used;
 };
 
+#define MEMPOOL_MAX_SIZE  (UINT_MAX / 4)
+
 void *mempool_alloc(struct MemPool **pool, unsigned size)
 {
 	struct MemPool *cur = *pool;
 	void *ptr;
 	unsigned nsize;
 
+	/* refuse sizes where aligning or doubling would overflow 'unsigned' */
+	if (size > MEMPOOL_MAX_SIZE)
+		return NULL;
 	size = ALIGN(size);
-	if (cur && cur->used + size <= cur->size) {
+	if (cur && size <= cur->size - cur->used) {
 		ptr = (char *)(cur + 1) + cur->used;
 		cur->used += size;
 		return ptr;
 	} else {
-		nsize = cur ? (2 * cur->size) : 512;
+		nsize = cur ? cur->size : 256;
+		if (nsize <= MEMPOOL_MAX_SIZE)
+			nsize *= 2;
 		while (nsize < size)
 			nsize *= 2;
 		cur = calloc(1, sizeof(*cur) + nsize);
